@@ -218,6 +218,22 @@ def e2e_part(spec, part):
                         part.count("groups_off_checked")
                         if onoff < 0:
                             part.violate(f"C19/{fam}/eco-group-left-on", f"{tagtxt}: after {m.name} eco-mode group {k} is still switched on (on/off byte {onoff})", case)
+                    # switch the groups on again through a path that does not refresh the group objects (switch setting / another
+                    # client): the next ECO_CHARGE / ECO_DISCHARGE has to switch them off again
+                    for k in (2, 3, 4):
+                        if rnd.random() < 0.7:
+                            if rnd.random() < 0.5:
+                                try:
+                                    await inv.write_setting(f"eco_mode_{k}_switch", -1)
+                                except Exception:   # noqa
+                                    pass
+                            else:
+                                a = bases[k - 1] + (2 if v2 else 3)
+                                val = (sim.get(a) & 0x00FF) | 0xFF00
+                                if fam == "ES" and not v2:
+                                    sim.setreg(a, val)
+                                else:
+                                    sim.regs[a] = val
             # export limit and DoD
             for x in [0, 1, 100, 4999, 10000, 65534] + [rnd.randrange(0, 65535) for _ in range(4)]:
                 await inv.set_grid_export_limit(x)
